@@ -121,6 +121,34 @@ pub fn sp(
     }
 }
 
+/// the asynchronous dispatcher under the window oracles, registered under another property
+pub fn async_sub(property: &'static str, name: &'static str, cfg: GenCfg) -> Sub {
+    Sub {
+        max_lanes: 4,
+        ..sub(
+            p_async::C15 {
+                cfg,
+                property,
+                name,
+            },
+            400,
+            20_000,
+        )
+    }
+}
+
+pub fn async_cfg() -> GenCfg {
+    GenCfg {
+        max_ops: 10,
+        max_inner_ops: 3,
+        universe_max: 6,
+        max_depth: 2,
+        tl_in_batch: false,
+        p_tl: 1,
+        ..GenCfg::default()
+    }
+}
+
 pub fn sched_sub(p: p_sched::SchedProp, quick: usize, thorough: usize) -> Sub {
     Sub {
         p: Box::new(p),
@@ -392,8 +420,27 @@ pub fn sched_subs_for(id: &str) -> Vec<Sub> {
                 60,
                 2_000,
             ),
+            async_sub(
+                "C01",
+                "c01-async",
+                GenCfg {
+                    universe_max: 4,
+                    ..async_cfg()
+                },
+            ),
         ],
-        "C02" => vec![sched_sub(
+        "C02" => vec![async_sub(
+                "C02",
+                "c02-async",
+                GenCfg {
+                    p_dep: 11,
+                    max_deps: 3,
+                    universe_max: 12,
+                    max_reads: 1,
+                    max_writes: 1,
+                    ..async_cfg()
+                },
+            ), sched_sub(
             sp(
                 "C02",
                 "c02-sched",
@@ -414,7 +461,17 @@ pub fn sched_subs_for(id: &str) -> Vec<Sub> {
             3_000,
             60_000,
         )],
-        "C03" => vec![sched_sub(
+        "C03" => vec![async_sub(
+                "C03",
+                "c03-async",
+                GenCfg {
+                    p_barrier: 4,
+                    universe_max: 12,
+                    max_reads: 1,
+                    max_writes: 1,
+                    ..async_cfg()
+                },
+            ), sched_sub(
             sp(
                 "C03",
                 "c03-sched",
